@@ -309,4 +309,6 @@ def run(repo, tier):
         ('photutils.segmentation.catalog.SourceCatalog.to_table', 'test', 'self.isscalar',
          'every column value of a scalar catalog is wrapped in a 1-tuple (also array-valued ones such as centroid)'),
     ])
+    from .common import run_generic_pack
+    run_generic_pack(repo, res, PROP, ())
     return res
